@@ -41,7 +41,7 @@ def showEncode : Res (Option (List Char)) → String
   | .ok none => "none"
   | .ok (some s) => String.ofList s
 
-def handle (op : String) (args : List String) : Option String :=
+def handle1 (op : String) (args : List String) : Option String :=
   match op, args with
   | "c11.polymod", [vs] => some <| match parseNatList? vs with
       | some vs => toString (polymod vs)
@@ -99,5 +99,58 @@ def handle (op : String) (args : List String) : Option String :=
              | .error e => "err:" ++ e.family)
       | _, _, _ => badArgs
   | _, _ => none
+
+/-! ### histories and observer sequences (the model is stateless: each step is answered on its own) -/
+
+/-- one step of a history `kind;arg;arg…`; a step whose kind starts with `~` is executed by the harness for
+    its side effects only and is reported as `-` by both sides (its own outcome is outside the property) -/
+def stepOut (step : String) : String :=
+  match step.splitOn ";" with
+  | k :: args => if k.startsWith "~" then "-" else (handle1 ("c11." ++ k) args).getD "bad-op"
+  | [] => "bad-op"
+
+/-- observers of one `CBech32Data` object `(ver, prog)`, under the chain selected at that moment -/
+def observe (ver : Nat) (prog : Bytes) : Spec.ChainParams → List String → List String
+  | _, [] => []
+  | chain, tok :: rest =>
+    let strR := cbech32Str chain.bech32Hrp.toList ver prog
+    let here (o : String) := o :: observe ver prog chain rest
+    match tok.splitOn ":" with
+    | ["str"] => here (match strR with | .ok s => String.ofList s | .error e => "err:" ++ e.family)
+    | ["repr"] => here (match strR with
+        | .ok s => "CBech32Data('" ++ String.ofList s ++ "')" | .error e => "err:" ++ e.family)
+    | ["bytes"] => here (toHex prog)
+    | ["tobytes"] => here (toHex prog)
+    | ["witver"] => here (toString ver)
+    | ["len"] => here (toString prog.length)
+    | ["hash"] => here "True"                                  -- hash(o) == hash(bytes(o))
+    | ["eq", h] => here (match parseHex? h with | some b => (if b = prog then "True" else "False") | none => badArgs)
+    | ["ne", h] => here (match parseHex? h with | some b => (if b = prog then "False" else "True") | none => badArgs)
+    | ["sel", c] => (match Spec.chainByName? c with
+        | some chain' => "-" :: observe ver prog chain' rest
+        | none => [badArgs])
+    | _ => [badArgs]
+
+def handle (op : String) (args : List String) : Option String :=
+  match op, args with
+  | "c11.seq", steps => some (joinWith " " (steps.map stepOut))
+  | "c11.obj", chain :: how :: payload :: toks => some <|
+      match Spec.chainByName? chain with
+      | none => badArgs
+      | some c =>
+        let built : Option (Res (Nat × Bytes)) :=
+          match how with
+          | "new" => (parseStr? payload).map (cbech32New c.bech32Hrp.toList)
+          | "fb" => (match payload.splitOn ":" with
+              | [v, h] => (match parseNat? v, parseHex? h with
+                  | some v, some h => some (fromBytes v (h.map UInt8.toNat))
+                  | _, _ => none)
+              | _ => none)
+          | _ => none
+        match built with
+        | none => badArgs
+        | some (.error e) => "err:" ++ e.family
+        | some (.ok (v, p)) => joinWith " " ("ok" :: observe v p c toks)
+  | _, _ => handle1 op args
 
 end Driver.C11
